@@ -158,6 +158,25 @@ func makeIntrinsics() map[string]intrinsic {
 		}
 		return r
 	}
+	m[V+"Aborts"] = func(st *State, fr *frame, a []value, cc *ssa.CallCommon) value {
+		cl := a[0].(*closure)
+		aborted := false
+		func() {
+			defer func() {
+				if x := recover(); x != nil {
+					if pe, ok := x.(pathEnd); ok && pe.kind == "panic" {
+						if iv, ok := pe.val.(iface); ok && iv.t != nil && strings.HasSuffix(iv.t.String(), "zzverif/verif.Injected") {
+							aborted = true
+							return
+						}
+					}
+					panic(x)
+				}
+			}()
+			st.callFunction(fr, cl.Fn, cl.Env, nil)
+		}()
+		return BoolConst(aborted)
+	}
 	m[V+"AtomicallyOrAbort"] = func(st *State, fr *frame, a []value, cc *ssa.CallCommon) value {
 		snap := st.snapshotColls()
 		cl := a[1].(*closure)
